@@ -178,8 +178,7 @@ def run(cr: CheckRun) -> None:
     tlc_expect_ok(res, "replay")
     cr.add_tlc("replay-model", res)
     items = [_script_from_acts(v) for v in vals if len(v) >= 2]
-    if quick:
-        items = items[:: max(1, len(items) // 2500)]
+    items = items[:: max(1, len(items) // (2500 if quick else 40000))]
     campaign(cr, items, "exhaustive-schedules")
     cr.mark("exhaustive-schedules")
     sims, res = vlib.sim_behaviours(SD, "MCInterrupts", "MCInterrupts_sim.cfg", 300 if quick else 4000, 40, cr.seed, "C12", var="acts")
